@@ -1,6 +1,6 @@
 ---- MODULE MC_index_quick2 ----
 EXTENDS HiveIndex
 mcIds == [k \in Kinds |-> CASE k = "veh" -> {"v1"} [] k = "req" -> {} [] k = "st" -> {"s1", "s2"} [] OTHER -> {"b1", "b2"}]
-mcCells == {"c1", "c2", "c3", "c4"}
+mcCells == {"c1", "c2", "c3"}
 mcSearchOf == [c \in mcCells |-> IF c \in {"c1", "c2"} THEN "S1" ELSE "S2"]
 ====
